@@ -1,4 +1,4 @@
 SPECIFICATION TraceSpec
-INVARIANTS C32_AggExact HarnessAggInd HarnessAggLift HarnessAggPattern HarnessAggModelImage
+INVARIANTS C32_AggExact HarnessAggInd HarnessAggLift HarnessAggPattern HarnessAggModelImage HarnessAggStep
 POSTCONDITION Accepted
 CHECK_DEADLOCK FALSE
